@@ -115,6 +115,7 @@ def same_modulo_ties(got, want_ids, want_keys):
 def run(ck):
     from twisted.application import service
     from twisted.internet import defer
+    from foolscap.eventual import eventually
     from allmydata import grid_manager as gm
     from allmydata import storage_client as sc_mod
     from allmydata.storage.http_client import ImmutableCreateResult
@@ -189,9 +190,14 @@ def run(ck):
     class FakeGeneral(object):
         def __init__(self, client): self.port = client._base_url.port
         def get_version(self):
+            # answered in a later turn, as a network would: _connect() stores its Deferred only after building the
+            # chain, so a synchronous answer would leave it "still connecting" for ever
+            d = defer.Deferred()
             if self.port in http_down:
-                return defer.fail(ConnectionRefusedError("vf: port %d down" % self.port))
-            return defer.succeed(HTTP_VERSION)
+                eventually(d.errback, ConnectionRefusedError("vf: port %d down" % self.port))
+            else:
+                eventually(d.callback, HTTP_VERSION)
+            return d
 
     class FakeImmutables(object):
         def __init__(self, client): self.port = client._base_url.port
